@@ -51,7 +51,7 @@ class Conclusion(SymbolicExpression[T], ABC):
         value_str = self.value._type_.__name__ if isinstance(self.value, Variable) else str(self.value)
         return f"{self.__class__.__name__}({self.var._var_._name_}, {value_str})"
 
-    def _reset_cache_(self) -> None:
+    def _reset_cache_(self, visited=None) -> None:
         ...
 
     @property
